@@ -525,6 +525,100 @@ def gen_case(rng, idx, kind):
     return {"id": idx, "kind": kind, "stack": stack, "ops": ops}
 
 
+def gen_many(rng, idx):
+    """more per-layer filters than a FilterMap has bits: 63..70 filtered recorders in one or two Vecs (FilterIds in Vec order,
+    inner `with` first), every filter static and distinct from its neighbours; filter #0 and filter #64 (where there is one)
+    accept different targets, and the history has events and spans at both, so that two filters sharing one bit cannot go unnoticed.
+    No probes, no vetoing layers, well-formed span use: the history is clean."""
+    nf = rng.choice([63, 64, 65, 65, 65, 66, 67, 68, 70])
+    t0, t1 = rng.sample(range(NT), 2)
+    t2 = [t for t in range(NT) if t not in (t0, t1)][0]
+    filts = []
+    for k in range(nf):
+        r = rng.random()
+        if k % 64 == 0:
+            f = {"t": "targets", "tbl": [[t0 if k == 0 else t1, 5]], "d": None}
+        elif r < 0.4:
+            f = {"t": "targets", "tbl": [[t, rng.choice([1, 2, 3, 4, 5])] for t in rng.sample(range(NT), rng.randint(1, 2))], "d": rng.choice([None, None, 2])}
+        elif r < 0.7:
+            f = {"t": "level", "l": rng.choice([1, 2, 3, 4, 5])}
+        elif r < 0.9:
+            f = {"t": "fn", "cs": sorted(rng.sample(range(45), rng.randint(5, 30)))}
+        else:
+            f = {"t": "not", "a": {"t": "targets", "tbl": [[rng.randrange(NT), rng.choice([2, 3, 4])]], "d": None}}
+        filts.append({"t": "filt", "k": 0, "l": {"t": "rec", "n": k + 1, "veto": []}, "f": f})
+    cut = rng.choice([nf, nf, rng.randint(1, nf - 1)])
+    stack = [{"t": "vec", "ls": filts[:cut]}]
+    if cut < nf:
+        stack.append({"t": "vec", "ls": filts[cut:]})
+    if rng.random() < 0.4:
+        stack.insert(rng.randrange(len(stack) + 1), {"t": "rec", "n": nf + 1, "veto": []})
+    ev_cs = sorted({3 * rng.randrange(5) + t0, 3 * rng.randrange(5) + t1, 3 * rng.randrange(5) + t0, 3 * rng.randrange(5) + t1, 3 * rng.randrange(5) + t2})
+    span_cs = sorted({15 + 3 * rng.randrange(5) + t0, 15 + 3 * rng.randrange(5) + t1})
+    ops = [["E", c] for c in ev_cs[:2]] + gen_ops(rng, rng.choice([10, 16, 24]), ev_cs, span_cs, [], malformed=False)
+    assign_tags(stack)
+    return {"id": "many%d" % idx, "kind": "many", "stack": stack, "ops": ops}
+
+
+def run_many(ctx, rep, cases, profiles):
+    """the >64-filters stream.  Oracle (property text): EITHER building the stack is refused (a panic while the layers are added,
+    caught by the harness: there is no stack) - acceptable only when more than 64 per-layer filters were attempted - OR every layer
+    receives exactly what its own filters accept (the same Oracle as everywhere else; it knows nothing about FilterIds).
+    Tie: accepted / refused per (number of filters, profile) vs Stack/IdBound.v [register_n]."""
+    seen = {}      # (profile, n filters) -> accepted?
+    for prof in profiles:
+        rel = prof == "release"
+        ok, paths, log = cargo_build(ctx, "stack", ["h_stack"], release=rel)
+        if not ok:
+            rep.tie("build:h_stack-" + prof, False, vlib.last_error(log))
+            return
+        raw = run_impl(paths["h_stack"], cases, vlib.NCPU)
+        for case, (rc, out) in zip(cases, raw):
+            if rc != 0:
+                rep.tie("run:h_stack-many-" + prof, False, "case %s rc=%d %s" % (case["id"], rc, vlib.last_error(out)), {"case": case})
+                return
+            impl = parse_impl(out)
+            rep.evaluations += 1
+            nf = len(walk_stack(case["stack"])[2])
+            payload = {"case": {"stack": case["stack"], "ops": case["ops"]}, "kind": "many", "profile": prof}
+            if impl["build_panic"]:
+                rep.count("many:refused-" + prof)
+                seen.setdefault((prof, nf), False)
+                if nf <= 64:
+                    rep.violation("a stack with %d per-layer filters was refused: %s [%s build]" % (nf, impl["build_panic"][:200], prof), payload)
+                elif seen[(prof, nf)]:
+                    seen[(prof, nf)] = None
+                continue
+            rep.count("many:accepted-" + prof)
+            if seen.setdefault((prof, nf), True) is False:
+                seen[(prof, nf)] = None
+            if nf > 64:
+                rep.count("many:accepted-over-64-" + prof)
+            orc = Oracle(case, impl).run()
+            for k, v in orc.stats.items():
+                rep.count("oracle:" + k, v)
+            if orc.stats["disagree"] and any(v >= 2 for v in orc.always_hits.values()):
+                rep.nontrivial.add(json.dumps([case["stack"], None, case["ops"]], sort_keys=True))
+            if impl["panic"]:
+                rep.violation("panic at op %d: %s [%s build, %d per-layer filters]" % (impl["panic"]["op"], impl["panic"]["panic"][:200], prof, nf),
+                              dict(payload, panic=impl["panic"]))
+            for what, detail, finding in orc.violations:
+                rep.violation("%s: %s [%s build, %d per-layer filters on one Registry]" % (what, detail, prof, nf), dict(payload, detail=detail), finding=finding)
+        ctx.log("%s: ran %d many-filter cases" % (prof, len(cases)))
+    # ---- tie with the model of FilterId::new / register_filter
+    keys = sorted(seen)
+    if not keys:
+        return
+    try:
+        term = "[" + "; ".join("match register_n %s %d with Some _ => true | None => false end" % ("Release" if p == "release" else "Debug", n) for p, n in keys) + "]"
+        res = coq_eval(ctx, "From Coq Require Import NArith List Bool.\nFrom TV Require Import Stack.Model Stack.IdBound.\nImport ListNotations.", [("idb", term)], tag="c07idbound")["idb"]
+        bad = [(p, n, seen[(p, n)], m) for (p, n), m in zip(keys, res) if seen[(p, n)] != m]
+        rep.tie("correspondence:id-bound", not bad, "%d (profile, filters) points; accepted / refused as [register_n] says" % len(keys),
+                [{"profile": p, "filters": n, "impl_accepts": a, "model_accepts": m} for p, n, a, m in bad[:1]] or None)
+    except Exception as ex:
+        rep.tie("model-eval:id-bound", False, str(ex)[:400])
+
+
 def gen_two(rng, idx):
     """two stacks on two threads: each thread runs its own history on its own stack, the main thread interleaves them; the
     callsite pool (and so the per-callsite interest cache) is shared"""
@@ -1079,7 +1173,8 @@ def run(ctx, only=None, release=None):
         "the global max level (LevelFilter::current(), computed from max_level_hint: C08) is read from the implementation and given to the model as a parameter; "
         "the theorems assume it is sound (HintSound: nothing above it is accepted by anybody)",
         "class of stacks (Spec.shape / WF): every Filtered wraps recording layers only (no global filter, no vetoing layer inside a Filtered: documented use); "
-        "at most 63 per-layer filters (64 is finding F71); reload around a Filtered excluded (documented restriction); anything else - global filters and "
+        "at most 63 per-layer filters for the delivery theorems (64 was finding F71; more than 64 attempted filters: the `many` stream on debug and "
+        "release-style builds + Stack/IdBound.v: refused, or isolated); reload around a Filtered excluded (documented restriction); anything else - global filters and "
         "vetoing layers anywhere outside a Filtered, also inside Vec; empty Vec / None; any nesting - is inside",
         "user closures are pure; Targets directives use the three pool targets, none a prefix of another (directive matching is C11)",
         "one dispatcher per thread (two-stack cases: two threads, one stack each, operations handed out one at a time by a third thread); "
@@ -1103,7 +1198,11 @@ def run(ctx, only=None, release=None):
             cases.append(gen_case(rng, i, kinds[i % len(kinds)]))
         for i in range(n // 6):
             cases.append(gen_two(rng, n + i))
-    for c in cases:
+    many = [c for c in cases if c["kind"] == "many"]
+    cases = [c for c in cases if c["kind"] != "many"]
+    if only is None:
+        many += [gen_many(rng, i) for i in range(24 if not ctx.thorough() else 150)]
+    for c in cases + many:
         rep.count("kind:" + c["kind"])
         rep.count("depth:%d" % len(c["stack"]))
         if "stack2" in c:
@@ -1114,6 +1213,8 @@ def run(ctx, only=None, release=None):
     builds = [False] + ([True] if ctx.thorough() else [])
     if release is not None:
         builds = [release]
+    if not cases:
+        builds = []
     model = None
     for rel in builds:
         prof = "release" if rel else "debug"
@@ -1220,6 +1321,9 @@ def run(ctx, only=None, release=None):
                     rep.count("outside-class(correspondence only)")
         if model is not None:
             rep.tie("correspondence:" + prof, not disagree, "%d disagreements in %d cases" % (len(disagree), len(cases)), disagree[:1] or None)
+    # ---- more than 64 per-layer filters: debug AND release-style (debug-assertions / overflow-checks off) builds, every tier
+    if many:
+        run_many(ctx, rep, many, ["debug", "release"] if release is None else ["release" if release else "debug"])
     rep.exhaustive = False
     rep.samples = [{"stack": c["stack"], "ops": c["ops"][:8]} for c in cases[:3]] + \
                   [{"stack": c["stack"], "stack2": c["stack2"], "ops": c["ops"][:8]} for c in cases if "stack2" in c][:1]
@@ -1235,14 +1339,16 @@ def replay(ctx, payload):
         except (IndexError, KeyError, TypeError):
             c = {}
     prof = c.get("profile", "debug")
+    kind = c.get("kind")
     while isinstance(c.get("case"), dict):
         c = c["case"]
+        kind = c.get("kind", kind)
     if "stack" not in c or "ops" not in c:
         rep = Report(ctx)
         rep.rule = "replay"
         rep.tie("replay:payload", False, "no recorded case in this file")
         return rep
-    case = {"id": "replay", "kind": c.get("kind", "replay"), "stack": c["stack"], "ops": c["ops"]}
+    case = {"id": "replay", "kind": "many" if kind == "many" else c.get("kind", "replay"), "stack": c["stack"], "ops": c["ops"]}
     assign_tags(case["stack"])
     if "stack2" in c:
         case["stack2"] = c["stack2"]
